@@ -176,7 +176,8 @@ def check_C05(tr):
             out.append(V("C05:nonfinite:%s%s" % ("+".join(badc), tag), "non-finite crop output %r on step %d" % (badc, t), step=t))
             break
         if gs:
-            c = init["crops_live"].get(k, init["crops"][k])
+            c = dict(init["crops_live"].get(k, init["crops"][k]))
+            c.update(init.get("crop_user") or {})      # the configured envelope: what the user asked for
             cc, ccns = g[GR["canopy_cover"]], g[GR["canopy_cover_ns"]]
             if cc < -1e-9 or cc > c["CCx"] + 1e-9 or cc > ccns + 1e-9:
                 out.append(V("C05:canopy", "canopy %.9g outside [0, CCx=%.4g] or above no-stress canopy %.9g on step %d" % (cc, c["CCx"], ccns, t), step=t))
